@@ -88,6 +88,15 @@ pub struct CaseA {
     /// registrations: the algorithm preference list. 0 [-7], 1 [-257, -8] (nothing supported), 2 empty, 3 [-8, -7]
     #[serde(default)]
     pub algs: u8,
+    /// the request does not ask for verification and the user is present but not verified (on an authenticator that could
+    /// verify): lists apply all the same
+    #[serde(default)]
+    pub presence_only: bool,
+    /// assertions: the authenticator supports hmac-secret, held credentials hold secrets, and the request carries PRF inputs
+    /// with per-credential entries keyed by every credential held for the RP (bit 0) and by ids nobody holds (bit 1): which
+    /// credential signs is decided by RP and allow list alone
+    #[serde(default)]
+    pub prf_keys: u8,
 }
 
 /// credential ids of varying length (1..=255 bytes, incl. lengths an authenticator of this library never mints)
@@ -138,7 +147,16 @@ impl StoreAccess for Arc<tokio::sync::Mutex<MemoryStore>> {
 
 /// (A) the authenticator's use of the lists, on one store kind
 fn run_a<S: StoreAccess>(ctx: &mut Ctx, mut store: S, c: &CaseA, ref_handle: Option<RefStore>) -> Result<(), String> {
-    let creds = build(&c.contents);
+    let mut creds = build(&c.contents);
+    if c.prf_keys != 0 && !c.create {
+        for (k, pk) in creds.iter_mut().enumerate() {
+            pk.extensions.hmac_secret = Some(passkey_types::StoredHmacSecret { cred_with_uv: vec![k as u8; 32], cred_without_uv: Some(vec![!(k as u8); 32]) });
+        }
+        ctx.class("authenticator/assertion with per-credential PRF inputs");
+    }
+    if c.presence_only {
+        ctx.class("authenticator/user present but not verified (verification not requested)");
+    }
     let creds: Vec<Passkey> = if c.kind.single_slot() { creds.into_iter().take(1).collect() } else { creds };
     for pk in &creds {
         store.put(pk.clone());
@@ -148,7 +166,7 @@ fn run_a<S: StoreAccess>(ctx: &mut Ctx, mut store: S, c: &CaseA, ref_handle: Opt
     let ids = list_ids(&c.list, creds.len());
     let descriptors = ids.as_ref().map(|l| l.iter().enumerate().map(|(n, (i, t))| cer::descriptor_full(i, *t, (i.len() + n) as u8)).collect::<Vec<_>>());
     let named: Option<Vec<Vec<u8>>> = ids.as_ref().filter(|l| !l.is_empty()).map(|l| l.iter().map(|(i, _)| i.clone()).collect());
-    let uv = ScriptedUv::new(UvScript::verified());
+    let uv = ScriptedUv::new(if c.presence_only { UvScript::present_only() } else { UvScript::verified() });
     // what is held once the user has answered
     let mut creds = creds;
     let mut faulted = false;
@@ -177,7 +195,7 @@ fn run_a<S: StoreAccess>(ctx: &mut Ctx, mut store: S, c: &CaseA, ref_handle: Opt
         }
     }
     let before = if ref_handle.is_some() && c.create && c.prompt_change % 3 != 0 { creds.iter().map(snap).collect() } else { before };
-    let mut auth = cer::build_authenticator(store, uv, &AuthCfg::default());
+    let mut auth = cer::build_authenticator(store, uv, &AuthCfg { hmac: if c.prf_keys != 0 && !c.create { cer::HmacCfg::WithoutUv } else { cer::HmacCfg::None }, ..Default::default() });
     let held_for_rp: Vec<&Passkey> = creds.iter().filter(|p| p.rp_id == rp).collect();
     let names_foreign = named.as_ref().is_some_and(|n| creds.iter().any(|p| p.rp_id != rp && n.contains(&p.credential_id.to_vec())));
     ctx.eval();
@@ -194,7 +212,7 @@ fn run_a<S: StoreAccess>(ctx: &mut Ctx, mut store: S, c: &CaseA, ref_handle: Opt
             pub_key_cred_params: cer::params([&[-7i64][..], &[-257, -8], &[], &[-8, -7]][c.algs as usize % 4]),
             exclude_list: descriptors,
             extensions: None,
-            options: make_credential::Options { rk: false, up: true, uv: true },
+            options: make_credential::Options { rk: false, up: true, uv: !c.presence_only },
             pin_auth: None,
             pin_protocol: None,
         };
@@ -254,8 +272,20 @@ fn run_a<S: StoreAccess>(ctx: &mut Ctx, mut store: S, c: &CaseA, ref_handle: Opt
             rp_id: rp.into(),
             client_data_hash: vec![3u8; 32].into(),
             allow_list: descriptors,
-            extensions: None,
-            options: get_assertion::Options { rk: false, up: true, uv: true },
+            extensions: (c.prf_keys != 0).then(|| {
+                use passkey_types::ctap2::extensions::{AuthenticatorPrfInputs, AuthenticatorPrfValues};
+                let mut m = std::collections::HashMap::new();
+                if c.prf_keys & 1 != 0 {
+                    for (k, p) in creds.iter().enumerate().filter(|(_, p)| p.rp_id == rp) {
+                        m.insert(p.credential_id.clone(), AuthenticatorPrfValues { first: [k as u8; 32], second: None });
+                    }
+                }
+                if c.prf_keys & 2 != 0 {
+                    m.insert(b"prf-key-nobody-holds".to_vec().into(), AuthenticatorPrfValues { first: [0xEE; 32], second: None });
+                }
+                get_assertion::ExtensionInputs { hmac_secret: None, prf: Some(AuthenticatorPrfInputs { eval: Some(AuthenticatorPrfValues { first: [0x11; 32], second: None }), eval_by_credential: (!m.is_empty()).then_some(m) }) }
+            }),
+            options: get_assertion::Options { rk: false, up: true, uv: !c.presence_only },
             pin_auth: None,
             pin_protocol: None,
         };
@@ -680,7 +710,9 @@ fn case_a() -> impl Strategy<Value = CaseA> {
             let find_fault = (kind == Kind::Ref && !create && sel % 4 == 0).then_some([0x28u8, 0x7F, 0x01, 0x06][sel / 4 % 4]);
             let prompt_change = if kind == Kind::Ref && create { (sel % 5) as u8 } else { 0 };
             let algs = if create && sel % 3 == 0 { (sel / 3 % 4) as u8 } else { 0 };
-            CaseA { kind, contents, create, rp, list, empty_ok, find_fault, prompt_change, algs }
+            let presence_only = (sel + rp) % 3 == 1;
+            let prf_keys = if !create && find_fault.is_none() && (sel + rp) % 4 == 2 { 1 + (sel % 3) as u8 } else { 0 };
+            CaseA { kind, contents, create, rp, list, empty_ok, find_fault, prompt_change, algs, presence_only, prf_keys }
         })
 }
 
@@ -727,7 +759,7 @@ pub fn run(ctx: &mut Ctx) {
     for kind in [Kind::Ref, Kind::Memory, Kind::OptionSlot, Kind::ArcMutexMemory].into_iter().filter(|_| fs) {
         for list in [ListSel::Empty, ListSel::Absent, ListSel::Ids(vec![IdSel::Miss(1, false)]), ListSel::Ids(vec![IdSel::Miss(1, true)]), ListSel::Ids(vec![IdSel::Held(0, false)])] {
             for create in [true, false] {
-                let c = CaseA { kind, contents: vec![CredDesc { rp: 0, user: 0, counter: None }], create, rp: 0, list: list.clone(), empty_ok: false, find_fault: None, prompt_change: 0, algs: 0 };
+                let c = CaseA { kind, contents: vec![CredDesc { rp: 0, user: 0, counter: None }], create, rp: 0, list: list.clone(), empty_ok: false, find_fault: None, prompt_change: 0, algs: 0, presence_only: false, prf_keys: 0 };
                 if let Err(e) = check_a(ctx, &c) {
                     ctx.violation("authenticator-fixed", json!(c), &e);
                 }
